@@ -598,6 +598,39 @@ impl C09 {
                 }
                 if over {
                     counters.bump("probe_delta_list_oversized");
+                    // The predicates on a file whose delta list was discarded:
+                    // the only URI it still references is the snapshot's.
+                    let slice_auth = |u: &uri::Https| {
+                        let text = u.as_str();
+                        text["https://".len()..].split('/').next().unwrap_or("").to_ascii_lowercase()
+                    };
+                    for base in [
+                        n.snapshot().uri().clone(),
+                        uri::Https::from_str("https://rrdp.example.net/notification.xml").unwrap(),
+                        uri::Https::from_str("https://other.example.org/n.xml").unwrap(),
+                    ] {
+                        let want = slice_auth(l.snapshot().uri()) == slice_auth(&base);
+                        let got = guarded("has_matching_origins", || Ok(l.has_matching_origins(&base)))?;
+                        if got != want {
+                            return Err(Violation::new(
+                                "origin-check",
+                                "oversized-delta-list",
+                                format!(
+                                    "has_matching_origins({}) on a file parsed with a discarded (oversized) delta list and snapshot {} returned {} but by definition it is {}",
+                                    base, l.snapshot().uri(), got, want
+                                ),
+                            ));
+                        }
+                    }
+                    let mut l2 = l.clone();
+                    let got = guarded("sort_and_verify_deltas", || Ok(l2.sort_and_verify_deltas(None)))?;
+                    if !got {
+                        return Err(Violation::new(
+                            "delta-chain-check",
+                            "oversized-delta-list",
+                            "sort_and_verify_deltas on a file without retained deltas reported a gap".to_string(),
+                        ));
+                    }
                 }
             }
         }
